@@ -17,7 +17,8 @@ RULE = ('(F) fault injection through the public before_cursor_execute event: for
         'thorough: every boundary); the application rolls back and continues; compared: every table right after the '
         'rollback = before the transaction, manager maps empty, error reported, and the final tables = those of the run '
         'from which the failed transaction is deleted. (S) histories with savepoints (begin_nested / rollback / commit of '
-        'the savepoint) around non-versioned and versioned inner work. Non-trivial: the failed transaction had >= 2 '
+        'the savepoint, rollback of the underlying connection from outside followed by session.close(), session.close() '
+        'with an open savepoint) around non-versioned and versioned inner work. Non-trivial: the failed transaction had >= 2 '
         'flushes or the failure hit after >= 1 versioning statement; savepoint with an inner flush.')
 ASSUMPTIONS = B.COMMON_ASSUMPTIONS + [
     'PARTIAL: process death (torn files) is the database journal\'s business; the model\'s database is atomic by assumption',
@@ -57,18 +58,32 @@ def gen_cases(rng, n, tier):
 
 def gen_sp_program(rng):
     prog = [['add', 0, 1, {'a': 1}], ['add', 3, 1, {'a': 0}], ['commit']]
-    for _ in range(rng.randint(1, 3)):
+    for rnd in range(rng.randint(1, 3)):
         if rng.random() < 0.5:
             prog.append(['set', 0, 1, {'a': rng.choice([0, 1, 2])}])
         prog.append(['sp_begin'])
         inner_versioned = rng.random() < 0.4
         if inner_versioned:
-            prog.append(rng.choice([['set', 0, 1, {'b': rng.choice([0, 1, 2])}], ['add', 0, 2, {'a': 1}]]))
+            prog.append(rng.choice([['set', 0, 1, {'b': rng.choice([0, 1, 2])}], ['add', 0, 2 + rnd, {'a': 1}]]))
         else:
             prog.append(['set', 3, 1, {'a': rng.choice([0, 1, 2])}])
         if rng.random() < 0.7:
             prog.append(['flush'])
-        prog.append(rng.choice([['sp_rollback'], ['sp_rollback'], ['sp_release']]))
+        end = rng.choice(['sp_rollback', 'sp_rollback', 'sp_release', 'conn_rollback', 'close'])
+        if end == 'conn_rollback':
+            # the connection's transaction is rolled back from outside while the savepoint is open, then the
+            # session is closed; the next transaction must start from a clean slate
+            prog.append(['conn_rollback'])
+            prog.append(['close'])
+            prog.append(['set', 0, 1, {'a': rng.choice([0, 1, 2])}])
+            prog.append(['commit'])
+            continue
+        if end == 'close':
+            prog.append(['close'])
+            prog.append(['set', 0, 1, {'b': rng.choice([0, 1, 2])}])
+            prog.append(['commit'])
+            continue
+        prog.append([end])
         if rng.random() < 0.6:
             prog.append(['set', 0, 1, {'a': rng.choice([0, 1, 2])}])
             prog.append(['flush'])
@@ -79,6 +94,10 @@ def gen_sp_program(rng):
 def corpus():
     cfg = dict(shape='blog', strategy='validity', twin=False)
     return [dict(kind='S', cfg=cfg, prog=[['add', 0, 1, {'a': 1}], ['commit'], ['sp_begin'], ['set', 0, 1, {'a': 2}], ['flush'],
+                                          ['conn_rollback'], ['close'], ['set', 0, 1, {'a': 3}], ['commit']]),
+            dict(kind='S', cfg=cfg, prog=[['add', 0, 1, {'a': 1}], ['commit'], ['set', 0, 1, {'a': 2}], ['flush'],
+                                          ['conn_rollback'], ['close'], ['set', 0, 1, {'a': 3}], ['commit']]),
+            dict(kind='S', cfg=cfg, prog=[['add', 0, 1, {'a': 1}], ['commit'], ['sp_begin'], ['set', 0, 1, {'a': 2}], ['flush'],
                                           ['sp_rollback'], ['set', 0, 1, {'a': 3}], ['commit']]),
             dict(kind='S', cfg=cfg, prog=[['add', 0, 1, {'a': 1}], ['add', 3, 1, {'a': 0}], ['commit'], ['sp_begin'],
                                           ['set', 3, 1, {'a': 2}], ['flush'], ['sp_rollback'], ['set', 0, 1, {'a': 3}], ['commit']])]
